@@ -13,7 +13,7 @@ use serde::{
     ser::SerializeTuple,
     Deserialize, Serialize,
 };
-use std::{collections::VecDeque, fmt, marker::PhantomData};
+use std::{borrow::Cow, collections::VecDeque, fmt, marker::PhantomData};
 
 /// Expands to the first expression, if there's
 /// no expression following, otherwise return the second expression.
@@ -58,7 +58,7 @@ macro_rules! gen_serialize {
 
                 Some(Event::EnterNode($l::into_raw(node.kind()), has_data))
             }
-            WalkEvent::Enter(NodeOrToken::Token(tok)) => Some(Event::Token($l::into_raw(tok.kind()), tok.resolve_text($resolver))),
+            WalkEvent::Enter(NodeOrToken::Token(tok)) => Some(Event::Token($l::into_raw(tok.kind()), Cow::Borrowed(tok.resolve_text($resolver)))),
 
             WalkEvent::Leave(NodeOrToken::Node(_)) => Some(Event::LeaveNode),
             WalkEvent::Leave(NodeOrToken::Token(_)) => None,
@@ -82,7 +82,10 @@ enum Event<'text> {
     /// If the boolean is true, the next element inside the data list
     /// must be attached to this node.
     EnterNode(RawSyntaxKind, bool),
-    Token(RawSyntaxKind, &'text str),
+    /// The text can only be borrowed from the input if it contains no escape sequences and the input
+    /// outlives the deserializer. Otherwise, for example when reading from an `io::Read` or from a
+    /// `serde_json::Value`, it has to be owned.
+    Token(RawSyntaxKind, #[serde(borrow)] Cow<'text, str>),
     LeaveNode,
 }
 
@@ -190,7 +193,7 @@ where
                             builder.start_node(S::from_raw(kind));
                             data_indices.push_back(has_data);
                         }
-                        Event::Token(kind, text) => builder.token(S::from_raw(kind), text),
+                        Event::Token(kind, text) => builder.token(S::from_raw(kind), &text),
                         Event::LeaveNode => builder.finish_node(),
                     }
                 }
